@@ -5,6 +5,7 @@ import (
 	"context"
 	"fmt"
 	"math/rand/v2"
+	"strings"
 	"testing"
 	"time"
 
@@ -219,6 +220,11 @@ func c07Aggregator(t *testing.T, s *sim.Scn, o *sim.Outcome) {
 		if op.S == "c" {
 			k = int(op.C >> 8)
 		}
+		if op.K == "finalerr" {
+			n.Exec.FinalScript = append(n.Exec.FinalScript, true)
+			o.Count("scripted-finalize-errors", 1)
+			continue
+		}
 		op2 := op
 		op2.S = ""
 		f, err := r.exec(op2, k)
@@ -236,9 +242,16 @@ func c07Aggregator(t *testing.T, s *sim.Scn, o *sim.Outcome) {
 				return
 			}
 		} else if err != nil {
-			if op.K == "include" {
+			if op.K == "include" && !strings.Contains(err.Error(), "cannot finalize right now") {
 				o.Fail("C07/includer-halted", "", i, fmt.Sprintf("DA includer loop reported a fatal error: %v", err), "no fatal error")
 				return
+			}
+			if op.K == "include" {
+				// the execution layer refused to finalize: the node shuts down (the soundness checks below look at
+				// what it reports at this very moment) and is restarted
+				if !after(i, op.String()+" (finalize refused)") {
+					return
+				}
 			}
 			_ = n.StopClean()
 			io.crashes++
@@ -258,6 +271,7 @@ func c07Aggregator(t *testing.T, s *sim.Scn, o *sim.Outcome) {
 	// faults stop. The node keeps producing and submitting (an aggregator always does); everything committed
 	// up to now must be reported as DA-included within a small budget of rounds.
 	w.DA.SubmitScript = nil
+	n.Exec.FinalScript = nil
 	h0 := n.Height()
 	budget := 4
 	for j := 0; j < budget && (n.M.GetDAIncludedHeight() < h0 || j == 0); j++ {
@@ -392,10 +406,24 @@ func c07Follower(t *testing.T, s *sim.Scn, o *sim.Outcome) {
 					return
 				}
 				fw.restarts++
+			} else if err != nil && strings.Contains(err.Error(), "cannot finalize right now") {
+				if !io.check(i, op.String()+" (finalize refused)") {
+					return
+				}
+				_ = f.StopClean()
+				io.crashes++
+				if err := f.StartNode(); err != nil {
+					o.Fail("C07/cannot-restart", "", i, err.Error(), "restarts")
+					return
+				}
+				fw.restarts++
 			} else if err != nil {
 				o.Fail("C07/includer-halted", "", i, fmt.Sprintf("DA includer loop reported a fatal error: %v", err), "no fatal error")
 				return
 			}
+		case "finalerr":
+			f.Exec.FinalScript = append(f.Exec.FinalScript, true)
+			o.Count("scripted-finalize-errors", 1)
 		case "restart", "kill":
 			if op.K == "restart" {
 				_ = f.StopClean()
@@ -416,6 +444,7 @@ func c07Follower(t *testing.T, s *sim.Scn, o *sim.Outcome) {
 		o.States = append(o.States, f.AbstractState())
 		o.Logf("%d %s %s", i, op, f.AbstractState())
 	}
+	f.Exec.FinalScript = nil
 	// final: all blobs on DA, scanned, everything delivered and applied; then a small inclusion budget
 	for bi, b := range blocks {
 		if !fw.planted[fmt.Sprintf("%d/0", bi)] {
@@ -500,6 +529,9 @@ func c07Gen(r *rand.Rand, tier string) *sim.Scn {
 				}
 				s.Ops = append(s.Ops, op)
 			case x < 85:
+				if r.IntN(8) == 0 {
+					s.Ops = append(s.Ops, sim.Op{K: "finalerr"})
+				}
 				op := sim.Op{K: "include"}
 				if r.IntN(5) == 0 {
 					op.S = "c"
@@ -540,6 +572,9 @@ func c07Gen(r *rand.Rand, tier string) *sim.Scn {
 		case x < 75:
 			s.Ops = append(s.Ops, sim.Op{K: "deliver", A: r.Int64N(2), B: r.Int64N(64)})
 		case x < 92:
+			if r.IntN(8) == 0 {
+				s.Ops = append(s.Ops, sim.Op{K: "finalerr"})
+			}
 			op := sim.Op{K: "include"}
 			if r.IntN(5) == 0 {
 				op.S = "c"
